@@ -32,7 +32,7 @@ IsRound == l <= Len(Log) /\ Ev.e = "Round"
 
 MkCfg(c) == [maxNames |-> c.maxNames, maxMatch |-> c.maxMatch, maxReplies |-> c.maxReplies,
              maxCompleted |-> c.maxCompleted, maxPerUser |-> c.maxPerUser, busUid |-> c.busUid,
-             policy |-> c.policy, epoch |-> 2]
+             policy |-> c.policy, epoch |-> 2, maxMsgFds |-> c.maxMsgFds]
 
 ZeroPos == [s \in Slot |-> 0]
 \* the known-defect deviation PolicyPruning is a property of the whole run of one daemon: chosen at Reset
@@ -55,7 +55,7 @@ MsgMatch(o, e) ==
   /\ o.ty = e.ty /\ o.snd = e.snd /\ o.dst = e.dst /\ o.rs = e.rs
   /\ (IF e.ser = 0 THEN o.ser # 0 ELSE o.ser = e.ser)
   /\ o.path = e.path /\ o.ifc = e.ifc /\ o.mem = e.mem /\ o.err = e.err
-  /\ o.unk = <<>> /\ o.ci = FALSE /\ o.nfd = e.nfd
+  /\ o.unk = <<>> /\ o.ci = FALSE /\ o.nfd = e.nfd /\ o.fds = e.fds
   /\ o.mal = FALSE          \* the bytes the client read were well-formed (zero padding, exact body length)
   /\ CASE e.cmp = "exact" -> o.sig = e.sig /\ ArgsEq(o.args, e.args) /\ (e.org # 0 => o.fl = e.fl)
        [] e.cmp = "set1" -> /\ o.sig = e.sig /\ Len(o.args) = 1
@@ -97,8 +97,13 @@ SyncSlots == {Ev.sync[i].s : i \in 1..Len(Ev.sync)}
 \* round) or "carry" (the client had stopped reading for this round: it reads them first thing next round).
 \* A monitor cannot take part in the barrier; the driver reads it until it falls quiet after the last closing
 \* ping, so what is staged for it after that point may land in either round.
-NowOK(r, grp) == /\ cnt[r] + Len(grp) <= Len(Ev.obs[r])
-                 /\ GroupMatch(SubSeq(Ev.obs[r], cnt[r] + 1, cnt[r] + Len(grp)), grp)
+\* (a client whose connection the daemon closes in this round may lose the tail of what had been written to it --
+\* closing a socket with unread input resets the peer -- so for such a client the observations only have to be a
+\* prefix of what was staged)
+EofSet == {Ev.eof[i] : i \in 1..Len(Ev.eof)}
+NowOK(r, grp) == IF cnt[r] + Len(grp) <= Len(Ev.obs[r])
+                 THEN GroupMatch(SubSeq(Ev.obs[r], cnt[r] + 1, cnt[r] + Len(grp)), grp)
+                 ELSE r \in EofSet /\ cnt[r] = Len(Ev.obs[r])
 LateMonitor(r) == cst[r] = "monitor" /\ IsRound /\ sdone = SyncSlots /\ \A s \in Slot : pos[s] = Len(Ev.ops[s])
 Mode(r, grp) == IF r \in sdone THEN "carry"
                 ELSE IF LateMonitor(r) /\ (carry[r] # <<>> \/ ~NowOK(r, grp)) THEN "carry"
@@ -118,12 +123,23 @@ Explain(g) ==
                      badcarry |-> {r \in Slot : r \notin g /\ GroupFor(out', r) # <<>> /\ Mode(r, GroupFor(out', r)) = "carry"}])>>)
         /\ FALSE
   /\ cnt' = [r \in Slot |-> IF r \in g \/ GroupFor(out', r) = <<>> \/ Mode(r, GroupFor(out', r)) = "carry"
-                             THEN cnt[r] ELSE cnt[r] + Len(GroupFor(out', r))]
+                             THEN cnt[r]
+                             ELSE IF cnt[r] + Len(GroupFor(out', r)) <= Len(Ev.obs[r]) THEN cnt[r] + Len(GroupFor(out', r))
+                             ELSE cnt[r]]
   /\ carry' = [r \in Slot |-> IF r \notin g /\ GroupFor(out', r) # <<>> /\ Mode(r, GroupFor(out', r)) = "carry"
                                THEN Append(carry[r], GroupFor(out', r)) ELSE carry[r]]
 
 \* ---- abstract message of a "send" op
 OpMsg(op) == Msg(op.ty, <<>>, op.dst, op.ser, op.rs, op.path, op.ifc, op.mem, op.err, op.sig, op.args, op.fl, 0, "exact")
+\* descriptors: op.att are the tokens of the descriptors attached to this write, op.nfd is what the header announces;
+\* the message claims the first nfd of (held so far) \o (attached now); announcing more than there are, or more
+\* than the per-message maximum, makes the message invalid (the sender is disconnected)
+\* a connection that did not negotiate descriptor passing is read with plain read(): whatever was attached to the
+\* write is discarded by the kernel and never reaches the loader
+FdPool(s, op) == IF fdx.cap[s] THEN fdx.held[s] \o op.att ELSE <<>>
+\* the loader has room for cfg.maxMsgFds descriptors in all: a read that brings more than fit fails as a whole
+FdBad(s, op) == \/ op.nfd > Len(FdPool(s, op)) \/ op.nfd > cfg.maxMsgFds \/ Len(FdPool(s, op)) > cfg.maxMsgFds
+OpMsgFds(s, op) == [OpMsg(op) EXCEPT !.nfd = op.nfd, !.fds = SubSeq(FdPool(s, op), 1, op.nfd)]
 
 \* a client the daemon closed may never see the reply to its Hello although the Hello was processed: the name it
 \* got is then one of those announced to the others in this round
@@ -140,11 +156,11 @@ DumpOK(op) ==
         /\ d.q = [j \in 1..Len(q) |-> q[j].s]
         /\ (q # <<>> => d.ar = q[1].ar)
   /\ \A r \in Slot : op.nrules[r] = Len(rules[r])
-Dump(op) == DumpOK(op) /\ out' = <<>> /\ UNCHANGED <<cfg, cst, dying, uid, uname, everNames, queue, rules, pend, mon>>
+Dump(op) == DumpOK(op) /\ out' = <<>> /\ UNCHANGED <<cfg, cst, dying, uid, uname, everNames, queue, rules, pend, mon, fdx>>
 
 Apply0(s, op) ==
   IF cst[s] = "monitor" /\ op.k # "connect" THEN Plain(MonitorSpeaks(s)) ELSE
-  CASE op.k = "connect" -> Plain(Connect(s, op.uid))
+  CASE op.k = "connect" -> Plain(Connect(s, op.uid, op.fdcap))
     [] op.k = "monitor" -> \E order \in [1..Cardinality(NamesOf(queue, s)) -> NamesOf(queue, s)] :
                               Plain(BecomeMonitor(s, op.ser, op.fl, op.rules, op.flags, order))
     [] op.k = "hello" -> \E nw \in HelloNames(op) : Plain(Hello(s, op.ser, op.fl, nw))
@@ -155,7 +171,9 @@ Apply0(s, op) ==
     [] op.k = "addmatch" -> Plain(AddMatch(s, op.ser, op.fl, op.rule))
     [] op.k = "rmmatch" -> \/ Plain(RemoveMatch(s, op.ser, op.fl, op.rule))
                            \/ Dev("RemoveMatchAckThenError", Dev_RemoveMatchAckThenError(s, op.ser, op.fl, op.rule))
-    [] op.k = "send" -> \/ Plain(IF op.dst = BUS THEN DriverOther(s, OpMsg(op)) ELSE Send(s, OpMsg(op)))
+    [] op.k = "send" -> \/ Plain(IF FdBad(s, op) THEN Corrupt(s)
+                                  ELSE IF op.dst = BUS THEN DriverOther(s, OpMsg(op))
+                                  ELSE Send(s, OpMsgFds(s, op), SubSeq(FdPool(s, op), op.nfd + 1, Len(FdPool(s, op)))))
                         \/ Dev("LocalReplyUnstamped", Dev_LocalReplyUnstamped(s, OpMsg(op), op.fsnd))
     [] op.k = "close" -> Plain(PingAndClose(s, op.ser))
     [] op.k = "big" -> Plain(Corrupt(s))
@@ -228,7 +246,6 @@ TExpire(i) ==
   /\ UNCHANGED <<l, pos, sdone, gone, kicked, devs, skipd>>
 
 \* end of the round: everything read has been explained, every EOF seen by a client is one the model predicts
-EofSet == {Ev.eof[i] : i \in 1..Len(Ev.eof)}
 TEnd ==
   /\ IsRound /\ AllOpsDone /\ sdone = SyncSlots
   /\ \A r \in Slot : r \notin gone \cup kicked => cnt[r] = Len(Ev.obs[r])
@@ -246,7 +263,7 @@ TEnd ==
   /\ gone' = gone \cup kicked
   /\ UNCHANGED <<devs, skipd>>
   /\ cfg' = [cfg EXCEPT !.epoch = @ + 1]
-  /\ UNCHANGED <<cst, dying, uid, uname, everNames, queue, rules, pend, mon, out>>
+  /\ UNCHANGED <<cst, dying, uid, uname, everNames, queue, rules, pend, mon, fdx, out>>
 
 TEndDebug ==
   /\ Debug /\ IsRound /\ AllOpsDone /\ sdone = SyncSlots
@@ -261,12 +278,17 @@ TReset ==
   /\ cst' = [s \in Slot |-> "absent"] /\ dying' = [s \in Slot |-> FALSE]
   /\ uid' = [s \in Slot |-> 0] /\ uname' = [s \in Slot |-> <<>>] /\ everNames' = {}
   /\ queue' = <<>> /\ rules' = [s \in Slot |-> <<>>] /\ pend' = <<>> /\ mon' = [s \in Slot |-> <<>>]
+  /\ fdx' = [cap |-> [s \in Slot |-> FALSE], held |-> [s \in Slot |-> <<>>]]
   /\ out' = <<>>
   /\ l' = l + 1 /\ pos' = ZeroPos /\ cnt' = ZeroPos /\ sdone' = {} /\ gone' = {} /\ kicked' = {} /\ skipd' = {} /\ carry' = NoCarry
 
+\* end of a scenario: every client closed, the driver waited for the daemon's descriptor table to settle
+TFinal == /\ l <= Len(Log) /\ Ev.e = "Final" /\ Ev.fdleak = 0 /\ l' = l + 1
+          /\ UNCHANGED vars /\ UNCHANGED <<pos, cnt, sdone, gone, kicked, devs, skipd, carry>>
+
 TFirst == l = 1 /\ l' = 2 /\ UNCHANGED vars /\ UNCHANGED <<pos, cnt, sdone, gone, kicked, devs, skipd, carry>>
 
-TNext == \/ TFirst \/ TReset \/ TEnd \/ TEndDebug
+TNext == \/ TFirst \/ TReset \/ TEnd \/ TEndDebug \/ TFinal
          \/ \E s \in Slot : TStep(s) \/ TSync(s) \/ TDrop(s) \/ TSkip(s)
          \/ \E i \in 1..Len(pend) : TExpire(i)
 
